@@ -70,6 +70,7 @@ func runScenario(sc *Scenario) {
 		}
 		defer sv.stop()
 		inj := &injector{sc: int64(sc.ID), hostIdx: map[string]int{}, addr: sv.addr, refs: map[string]client.VerifEntryRef{}, srv: sv}
+		inj.root, inj.gens = inj, []*injector{inj}
 		if k > 0 {
 			inj.suffix = fmt.Sprintf("@%d", k)
 		}
@@ -354,8 +355,17 @@ func runScenario(sc *Scenario) {
 				ev("CLOSE\tclient")
 				rpc.Close()
 			case "closeaddr":
-				in.tabOf("0", "")
-				ev("CLOSE\taddr")
+				// which generation of the pool is closed: the one in the map right now (-1: none there at this instant)
+				g := -1
+				if p := client.VerifPool(rpc, srv.addr); p != nil {
+					gi := in.forHandle(p)
+					for k, x := range in.allGens() {
+						if x == gi {
+							g = k
+						}
+					}
+				}
+				in.ev("CLOSE\taddr\t%d", g)
 				rpc.CloseAddr(srv.addr)
 			}
 		}
@@ -433,7 +443,9 @@ func runScenario(sc *Scenario) {
 		time.Sleep(5 * time.Millisecond)
 		cur := ""
 		for _, inj := range ins {
-			cur += fmt.Sprintf("%d|%s;", inj.rvCount.Load(), snapString(inj))
+			for _, g := range inj.allGens() {
+				cur += fmt.Sprintf("%d|%s;", g.rvCount.Load(), snapString(g))
+			}
 		}
 		if cur == last {
 			stable++
@@ -447,10 +459,13 @@ func runScenario(sc *Scenario) {
 			ev("STAT\tnoconn=%g", m.GetCounter().GetValue()-noconn0)
 		}
 	}
-	for k := len(ins) - 1; k >= 0; k-- { // store 0 last: its END line closes the scenario
-		ins[k].ev("CRES\t%s", ins[k].canceledWithValue())
-		ins[k].ev("END\t%s\t%g\t%g\t%d\t%d\t%d", snapString(ins[k]), counterVal(metrics.LabelBatchRecvLoop)-p0recv, counterVal(metrics.LabelBatchSendLoop)-p0send,
-			atomic.LoadInt64(&client.BatchSendLoopPanicCounter)-sp0, injectedPanics.Load()-inj0, injectedRecvPanics.Load()-injr0)
+	for k := len(ins) - 1; k >= 0; k-- { // store 0 last, generation 0 last: its END line closes the scenario
+		gs := ins[k].allGens()
+		for j := len(gs) - 1; j >= 0; j-- {
+			gs[j].ev("CRES\t%s", gs[j].canceledWithValue())
+			gs[j].ev("END\t%s\t%g\t%g\t%d\t%d\t%d", snapString(gs[j]), counterVal(metrics.LabelBatchRecvLoop)-p0recv, counterVal(metrics.LabelBatchSendLoop)-p0send,
+				atomic.LoadInt64(&client.BatchSendLoopPanicCounter)-sp0, injectedPanics.Load()-inj0, injectedRecvPanics.Load()-injr0)
+		}
 	}
 }
 
